@@ -238,6 +238,12 @@ func (nak *NesterAccountKeeper) SetAccount(account EthAccount) error {
 func (nak *NesterAccountKeeper) RemoveAccount(account EthAccount) {
 	prefixKey := append(nak.prefix, account.Address.Bytes()...)
 	nak.state.Delete(prefixKey)
+	// the balance lives in the balance store (see SetAccount): write the removed account's
+	// balance back as well (zero after a self-destruct), otherwise the record keeps the
+	// amount it had before the transaction while the beneficiary has already been credited
+	if account.Coins.Amount != nil && account.Coins.Currency.Name != "" {
+		_ = nak.balances.SetBalance(account.Address, account.Coins)
+	}
 }
 
 func (nak *NesterAccountKeeper) GetNonce(addr keys.Address) uint64 {
